@@ -1,67 +1,14 @@
 import BoxoModel.C20.Model
-import BoxoModel.Gen.C20
+import BoxoModel.C20.Disc1
+import BoxoModel.C20.Disc2
+import BoxoModel.C20.Disc3
 import BoxoModel.Lib.LockOrder
 /-!
-C20 — helper definitions and the (kernel-evaluated) discipline checks over the regenerated fact table.
-The readable configuration `cfg` (which lock class has which rank, which functions keep / give back the
-descriptor lock) is stated here; `tables_agree` shows that the numeric tables emitted by the extractor are
-exactly its compilation.
+C20 — helper lemmas: the inductive invariant `VInv` of the step model. (The configuration of the lock-discipline
+check is in `Defs.lean`, its kernel-evaluated instances in `Disc1..3.lean`.)
 -/
 namespace C20
 open LockFacts
-
-/-- rank classes: File.desclock (0) < fileDescriptor.mu (1) < Directory.lock at depth d (2, d) < File.nodeLock (3) -/
-def cfg : Config where
-  kindOf := fun s => if s == "Directory" then .dir else if s == "File" then .file else if s == "fileDescriptor" then .fd
-                     else if s == "Root" then .root else .other
-  classRank := fun s =>
-    if s == "File.desclock" then some (0, .file) else if s == "fileDescriptor.mu" then some (1, .fd)
-    else if s == "Directory.lock" then some (2, .dir) else if s == "File.nodeLock" then some (3, .file) else none
-  keeps := ["File.Open"]
-  gives := ["fileDescriptor.Close"]
-  mustGive := ["File.Flush"]
-
-/-- locks held when a function is entered: descriptor methods are called on an open descriptor, which holds
-its File's desclock since `File.Open` -/
-def entryOf (i : Nat) : List Lock := if Gen.C20.funcKinds.getD i .other == .fd then [(0, 0)] else []
-
-def nFuncs : Nat := Gen.C20.mfsLockFacts.length
-
-/-- functions that take a descriptor lock themselves: they must not be called by a goroutine that already
-holds a descriptor (of any file) -/
-def opensDescriptor : List String := ["File.Flush", "File.Open", "File.Sync", "FlushPath"]
-
-def fuel : Nat := 200
-
-theorem tables_agree :
-    let t := compile cfg Gen.C20.mfsLockFacts Gen.C20.funcRecv Gen.C20.funcNames Gen.C20.lockClasses
-    t.kinds = Gen.C20.funcKinds ∧ t.ranks = Gen.C20.classRanks ∧ t.keeps = Gen.C20.keeps ∧ t.gives = Gen.C20.gives ∧
-    t.mustGive = Gen.C20.mustGive := by
-  decide +kernel
-
-theorem discipline_all :
-    (List.range nFuncs).all (fun i => checkFrom Gen.C20.table fuel (entryOf i) i) = true := by
-  decide +kernel
-
-theorem discipline_holding_descriptor :
-    (List.range nFuncs).all (fun i =>
-      opensDescriptor.contains (Gen.C20.funcNames.getD i "") || checkFrom Gen.C20.table fuel ((0, 0) :: entryOf i) i) = true := by
-  decide +kernel
-
-/-- guarded-field rule: from every exported function / method (unexported helpers are reached from them with their
-callers' locks), every access to `Directory.entriesCache`, `Directory.unixfsDir`, `File.node`, `fileDescriptor.state`,
-`fileDescriptor.mod` happens with the guarding lock of the same object held (write mode for stores), except the
-accesses listed in `Gen.C20.allowUnguarded` (existing unguarded reads, see docs/notes/C20.md) -/
-theorem guarded_access :
-    Gen.C20.exportedFuncs.all (fun i => checkFrom Gen.C20.tableAcc fuel (entryOf i) i) = true := by
-  decide +kernel
-
-/-- the facts the extractor produced for the unrepaired `File.Mode` (re-entrant RLock through GetNode):
-function 0 = File.Mode, function 1 = File.GetNode; lock class 0 = File.nodeLock -/
-def buggyTable : Tbl :=
-  ⟨[[.acq 0 (some []) false, .deferRel 0 (some []) false, .call 1 (some []), .retOk],
-    [.acq 0 (some []) false, .deferRel 0 (some []) false, .retOk]],
-   [.file, .file], [some (3, .file)], [], [], [], false, []⟩
 
 /-! ### invariant of the step model (every interleaving of `Step`) -/
 
